@@ -19,7 +19,7 @@ CFGS = {
     "ExcludeB": ({"mode": "exclude", "nums": ["B"], "ids": [], "mfrMode": "none", "mfrs": [], "netmap": False},
                  {"exclude_pgns": [130306]}),
     "IncludeF": ({"mode": "include", "nums": [], "ids": ["F"], "mfrMode": "exclude", "mfrs": ["m2"], "netmap": False},
-                 {"include_pgns": ["distanceLog"], "exclude_manufacturer_code": ["maretron"]}),
+                 {"include_pgns": ["distanceLog"], "exclude_manufacturer_code": ["bep marine"]}),
 }
 SRC = [11, 12, 13]
 
